@@ -596,3 +596,42 @@ func ruleCancelOwnership(r *Run) {
 	}
 	r.AtLeast(rule, "cancellable contexts", n, 1)
 }
+
+// ruleWholeBodyDecode (R13r): request bodies are decoded as one complete JSON document. A
+// streaming Decoder.Decode stops after the first value and ignores trailing bytes, so bodies
+// that are not valid JSON would be accepted unless the code checks for what follows.
+func ruleWholeBodyDecode(r *Run) {
+	const rule = "R13r"
+	root := r.Anchor(rule, "requests.Parse")
+	if root == nil {
+		return
+	}
+	n := 0
+	for fn := range r.P.CG.Reachable([]*ssa.Function{root}, nil) {
+		hasMore := false
+		for _, ins := range allInstrs(fn) {
+			if ci, ok := ins.(ssa.CallInstruction); ok {
+				switch calleeName(ci.Common()) {
+				case "(*encoding/json.Decoder).More", "(*encoding/json.Decoder).Token", "(*encoding/json.Decoder).InputOffset", "(*encoding/json.Decoder).Buffered":
+					hasMore = true
+				}
+			}
+		}
+		for _, ins := range allInstrs(fn) {
+			ci, ok := ins.(ssa.CallInstruction)
+			if !ok {
+				continue
+			}
+			switch calleeName(ci.Common()) {
+			case "encoding/json.Unmarshal":
+				n++
+				r.OK(rule, fnName(fn), "json.Unmarshal of the request", r.P.pos(ins.Pos()), "Unmarshal rejects input that is not exactly one JSON value")
+			case "(*encoding/json.Decoder).Decode":
+				n++
+				r.Check(hasMore, rule, fnName(fn), "Decoder.Decode of the request", r.P.pos(ins.Pos()),
+					"the decoder is asked about remaining input afterwards", "the request is decoded with a streaming Decoder.Decode and nothing looks at what follows the first JSON value: a body such as `{...} garbage` or `[...]]` is not valid JSON but is executed and answered 200 instead of 422")
+			}
+		}
+	}
+	r.AtLeast(rule, "JSON decodes of the request body", n, 3)
+}
